@@ -118,9 +118,11 @@ def bounds_ok(G, aid, posq, T):
     """premise 'the bounding polygon contains the answer' (exact)"""
     b = aid.get('bounds')
     if b is None or T is None: return True
-    if len(b) > 2 and b[2] == 'own' and not G.spec.get('delete'):
+    if len(b) > 2 and b[2] == 'own' and not G.spec.get('delete') and not getattr(G, 'columns_deleted', False):
         # geo.boundary_polygon of a geometry without deleted columns (one piece, no holes) bounds every column of the
-        # geometry: the premise holds by construction, whatever polygon the implementation computed
+        # geometry: the premise holds by construction, whatever polygon the implementation computed.  Once a column
+        # has been deleted (by the spec or by an edit step of a sequence) the outline may describe only part of the
+        # geometry, and the premise is checked exactly below like for any other polygon.
         return True
     if b[0] == 'R':
         x0, y0, x1, y1 = [fr(v) for v in b[1]]
@@ -965,7 +967,12 @@ def run_sequence(spec, repo, seed=0, rounds=3, steps=None):
     done_steps = []
     other = [None]
 
-    def ctx(): return GeoCtx(spec, repo, geo=g)
+    deleted = [False]
+
+    def ctx():
+        G_ = GeoCtx(spec, repo, geo=g)
+        G_.columns_deleted = deleted[0]
+        return G_
 
     def inp(): return {'geometry': spec, 'sequence': [list(s_) for s_ in done_steps]}
 
@@ -1014,7 +1021,9 @@ def run_sequence(spec, repo, seed=0, rounds=3, steps=None):
             col = G.cols[G.order[step[1]]]
             try:
                 if kind == 'refine': g.refine([col])
-                else: g.delete_column(col.name)
+                else:
+                    deleted[0] = True
+                    g.delete_column(col.name)
             except Exception:
                 # the edit itself is refused (e.g. refine() cannot find the boundary of a mesh that earlier deletions
                 # cut in two): not a matter of this property; the object may be half edited, so the sequence ends here
